@@ -325,6 +325,23 @@ def exhaustive_cases(thorough):
         cases.append(Case('not-literal-magnitude', {}, [], ('not', lit(v))))
         cases.append(Case('and-literal-magnitude', {}, [], ('and', [spyw(1, lit(v)), spyw(2, lit(True))])))
         cases.append(Case('or-literal-magnitude', {}, [], ('or', [spyw(1, lit(v)), spyw(2, lit(False))])))
+    # long runs of blank cells INSIDE a range, up to the longest run RangeNode.eval still reads completely
+    # (MAX_EMPTY = 100; longer runs are known finding D6 of C03): the deciding element behind the run counts
+    import openpyxl.utils as _ou
+    for k in (1, 37, 99, 100):
+        for shape in ('row', 'col'):
+            if shape == 'row':
+                first, last = 'B7', f'{_ou.get_column_letter(k + 3)}7'
+            else:
+                first, last = 'B7', f'B{k + 8}'
+            R = f'{first}:{last}'
+            for a, b in ((True, False), (0, 7), (True, True), (False, False), (1, 0)):
+                consts = {f'{S1}!{first}': a, f'{S1}!{last}': b}
+                for tag, mk in (('and', lambda: ('and', [rng(R), spyw(1, lit(True))])),
+                                ('or', lambda: ('or', [rng(R), spyw(1, lit(False))])),
+                                ('if-and', lambda: ('if3', ('and', [rng(R)]), s1, s2)),
+                                ('not-or', lambda: ('not', ('or', [rng(R)])))):
+                    cases.append(Case(f'{tag}-blank-run-{shape}-{k}', dict(consts), [], mk()))
     # explicit empty-text cells (set_cell_value(addr, '')) next to blanks and never-set range members
     withempty = TRUTH_VALUES + ['']
     for tag, mk in shapes1[:5] + shapes1[10:12]:
@@ -582,6 +599,60 @@ def has_range_sc(e):
 
 # ------------------------------------------------------------------------------ direct calls of the bodies
 
+def twin_sheet_cases(res):
+    """the SAME formula text on two (three) sheets over unqualified references that hold different values on each sheet,
+    evaluated in both orders on one model: every copy follows the truth rules on its OWN sheet's cells.
+    Reference: the statement's rules, computed here for logical / numeric / blank cells."""
+    from xlcalculator import ModelCompiler, Evaluator
+
+    def truth(v):
+        return None if v is None else bool(v)
+
+    def AND(vs):
+        ts = [truth(v) for v in vs if v is not None]
+        return all(ts)
+
+    def OR(vs):
+        ts = [truth(v) for v in vs if v is not None]
+        return any(ts)
+    forms = [('=AND(A1:A3)', lambda c: AND([c['A1'], c['A2'], c['A3']])),
+             ('=OR(B1:B3)', lambda c: OR([c['B1'], c['B2'], c['B3']])),
+             ('=IF(AND(A1:A3),"all","some")', lambda c: 'all' if AND([c['A1'], c['A2'], c['A3']]) else 'some'),
+             ('=NOT(OR(B1:B3))', lambda c: not OR([c['B1'], c['B2'], c['B3']])),
+             ('=AND(A1,B1)', lambda c: AND([c['A1'], c['B1']])),
+             ('=IF(A1,B2,A3)', lambda c: c['B2'] if truth(c['A1']) else c['A3']),      # a blank branch value stays blank
+             ('=OR(A1:B3,FALSE)', lambda c: OR([c[k] for k in ('A1', 'B1', 'A2', 'B2', 'A3', 'B3')]))]
+    sheets = {'Sheet1': {'A1': True, 'A2': 1, 'A3': True, 'B1': False, 'B2': 0, 'B3': False},
+              'Other': {'A1': True, 'A2': 0, 'A3': True, 'B1': False, 'B2': 3, 'B3': False},
+              'Sheet1 (2)': {'A1': 2.5, 'A2': None, 'A3': -1, 'B1': None, 'B2': None, 'B3': 0}}
+    for order in (['Sheet1', 'Other', 'Sheet1 (2)'], ['Sheet1 (2)', 'Other', 'Sheet1'], ['Other', 'Sheet1', 'Sheet1 (2)']):
+        cells = {}
+        for sh in order:                    # dict order = compile order
+            for a, v in sheets[sh].items():
+                if v is not None:
+                    cells[f'{sh}!{a}'] = v
+            for i, (f, _r) in enumerate(forms):
+                cells[f'{sh}!D{i + 1}'] = f
+        try:
+            ev = Evaluator(ModelCompiler().read_and_parse_dict(cells, default_sheet=order[0]))
+        except Exception as exc:  # noqa: BLE001
+            res.violations.append({'what': 'a workbook with the same formula text on several sheets does not compile',
+                                   'input': {'cells': cells}, 'expected': 'a model', 'got': repr(exc)})
+            continue
+        for sh in order:
+            for i, (f, r) in enumerate(forms):
+                got = common.call_real(ev.evaluate, f'{sh}!D{i + 1}')
+                wv = r(sheets[sh])
+                want = common.canon(wv)
+                res.evaluations += 1
+                res.count('twin-sheets')
+                res.nontrivial.add(('twin', tuple(order), sh, f))
+                if not common.same_value(got, want):
+                    res.violations.append({'what': 'the same formula text on another sheet does not follow the truth rules on its own cells',
+                                           'input': {'sheet': sh, 'formula': f, 'cells of the sheet': {k: repr(v) for k, v in sheets[sh].items()},
+                                                     'compile order': order}, 'expected': want, 'got': got})
+
+
 def direct_cases(real, res, ctx):
     """the function objects called directly with Expr thunks that log themselves (no evaluator involved)"""
     ft, xl = real.ft, real.xl
@@ -779,6 +850,7 @@ def run(ctx):
         signal.signal(signal.SIGALRM, old)
     if not ctx.replay:
         direct_cases(real, res, ctx)
+        twin_sheet_cases(res)
     res.exhaustive = True
     if res.drift:
         res.notes.append(f'{len(res.drift)} model/implementation differences where the code still meets Spec')
